@@ -62,6 +62,16 @@ fn parse<'a, T>(s: &'a str) -> Result<T, ExtractQueryParamsError>
 where
     T: serde::Deserialize<'a>,
 {
+    // `form_urlencoded::parse` would silently replace invalid UTF-8 with U+FFFD.
+    if let Some(raw) = crate::request::urlencoded_utf8::find_invalid_utf8(s.as_bytes()) {
+        let e = <serde_html_form::de::Error as serde::de::Error>::custom(
+            crate::request::urlencoded_utf8::invalid_utf8_message(&raw),
+        );
+        let e = serde_path_to_error::Error::new(serde_path_to_error::Track::new().path(), e);
+        return Err(ExtractQueryParamsError::QueryDeserializationError(
+            QueryDeserializationError::new(e),
+        ));
+    }
     let deserializer = serde_html_form::Deserializer::new(form_urlencoded::parse(s.as_bytes()));
     serde_path_to_error::deserialize(deserializer)
         .map_err(QueryDeserializationError::new)
